@@ -66,7 +66,38 @@ class St:
                 return True
             if r == 'no':
                 return False
+        if atom[0] == 'bin' and atom[1] in ('Eq', 'Lt', 'Le', 'Gt', 'Ge'):
+            return self.interval_decides(atom[1], atom[2], atom[3])
         return None
+    def interval_of(self, t):
+        """(lo, hi) when t is an integer literal, or a term the path condition bounds by a ('range', t, lo, hi) fact - asserted by
+        whoever established it, e.g. the invariant of a collection's members for its generic element -, else None."""
+        if t[0] == 'lit':
+            return (t[1], t[1]) if isinstance(t[1], int) and not isinstance(t[1], bool) else None
+        for a, tr in self.pc:
+            if tr and a[0] == 'range' and a[1] == t:
+                return (a[2], a[3])
+        return None
+    def interval_decides(self, op, x, y):
+        """Truth of the integer comparison `x op y` when the intervals of both sides decide it for every pair of values, else None:
+        x in [a, b], y in [c, d]:  x < y holds if b < c and fails if a >= d;  x <= y holds if b <= c and fails if a > d;
+        x == y fails if the intervals are disjoint and holds if both are the same single value;  >, >= by swapping the sides."""
+        if x[0] == 'lit' and y[0] == 'lit':
+            return None
+        ix = self.interval_of(x)
+        iy = self.interval_of(y) if ix is not None else None
+        if ix is None or iy is None:
+            return None
+        if op in ('Gt', 'Ge'):
+            ix, iy, op = iy, ix, {'Gt': 'Lt', 'Ge': 'Le'}[op]
+        (a, b), (c, d) = ix, iy
+        if op == 'Lt':
+            return True if b < c else False if a >= d else None
+        if op == 'Le':
+            return True if b <= c else False if a > d else None
+        if b < c or d < a:
+            return False
+        return True if a == b == c == d else None
     def variant_test(self, v, var, siblings):
         if v[0] == 'tryerr' and var in ('Ok', 'Some', 'Err', 'None'):
             # the value a failed `?` leaves a block / closure with is the failure variant: never Ok / Some
@@ -123,8 +154,12 @@ def lit(v):
 
 class Interp:
     def __init__(self, facts, body, summaries=None, unroll=1, inline=None, field_hook=None, for_once=False, result_combinators=True, combinators=False, generic_loops=False,
-                 domain=None, local_try=False, places=False):
+                 domain=None, local_try=False, places=False, member_range=None):
         self.field_hook = field_hook
+        # member_range(node) -> (lo, hi) | None: an invariant of the analysed program, established by the rule that passes it, about
+        # every element of the collection the method call `node` operates on (all of them integers within lo..=hi); the models
+        # that evaluate a predicate on a generic element of that collection (retain) assume it for that element
+        self.member_range = member_range
         self.places = places          # `&mut` locals name the place they were taken from; Vec mutators act on that place (see ref_place)
         # an optional value domain (rules/strdom.py): decides equality / ordering / indexing / iteration of the values it knows
         # (symbolic strings, finite sequences); every hook answers None for "not mine", and the interpreter goes on as without it
@@ -192,6 +227,7 @@ class Interp:
         sub = Interp(self.facts, B, self.summaries, self.unroll, self.inline, self.field_hook, self.for_once, self.result_combinators, self.combinators, self.generic_loops,
                      self.domain, self.local_try, self.places)
         sub._depth = getattr(self, '_depth', 0) + 1
+        sub.member_range = self.member_range
         sub.exact_seqs, sub.carry_vecs = self.exact_seqs, self.carry_vecs
         env = {}
         states = [St(env, st.heap, st.ev, st.pc, st.ctr)]
@@ -2463,17 +2499,24 @@ def builtin_summary(I, cal, args, node, st):
         return outs
     if name == 'retain' and len(args) == 2 and args[1][0] in ('closure', 'fn') and ('HashSet' in cal or 'HashMap' in cal or 'BTreeSet' in cal):
         # set.retain(pred) removes exactly the elements pred rejects.  The predicate is a function of the element through equality
-        # comparisons only (checked: anything else leaves the call opaque): it is evaluated once for an element equal to each term it
-        # compares the element with, and once for an element different from all of them.  The call is recorded as the removals it
-        # amounts to - `remove(x)` for every x that is rejected whatever the other comparisons yield - followed by `clear` if an
-        # element different from all of them is not certainly kept.
+        # comparisons - and, when the caller has established an interval that holds every member (member_range), through ordering
+        # comparisons that this interval decides - only (checked: anything else leaves the call opaque, and so does a predicate
+        # that does anything but compute its answer): it is evaluated once for an element equal to each term it compares the
+        # element with, and once for an element different from all of them.  The call is recorded as the removals it amounts to -
+        # `remove(x)` for every x that is rejected whatever the other comparisons yield - followed by `clear` if an element
+        # different from all of them is not certainly kept; a retain that amounts to no removal at all is recorded as the event
+        # ('kept-all', callee, (set,), node).  A predicate that compares the element with nothing is judged the same way when it
+        # certainly keeps every element (`|_| true`, `|&id| id > 0` on members known to be >= 1); otherwise the call stays opaque.
         place = args[0]
         el, st2 = st.fresh('elem')
+        rng = I.member_range(node) if getattr(I, 'member_range', None) is not None else None
+        bounded = (lambda x, s: s.assume(('range', x, rng[0], rng[1]), True)) if rng is not None else (lambda x, s: s)
+        st2 = bounded(el, st2)
         probe = I.apply(args[1], [el], node, st2)
         cands = []
         opaque = False
         for o in probe:
-            if o.kind != 'val':
+            if o.kind != 'val' or len(o.st.ev) != len(st2.ev) or o.st.heap != st2.heap:
                 opaque = True; continue
             for a, t in o.st.pc[len(st2.pc):]:
                 if a[0] == 'bin' and a[1] == 'Eq' and el in (a[2], a[3]):
@@ -2487,10 +2530,13 @@ def builtin_summary(I, cal, args, node, st):
                     x = z[3] if z[2] == el else z[2]
                     if x not in cands:
                         cands.append(x)
-        if not opaque and cands:
+        # a term no member can be equal to (a literal outside the members' interval) is not a candidate: nothing equal to it is there
+        cands = [x for x in cands if st2.known(('bin', 'Eq', el, x)) is not False]
+        if not opaque:
             def verdicts(x):
+                # the element equal to x is a member too: the members' interval holds for x on this evaluation
                 vs = set()
-                for o in I.apply(args[1], [x], node, st):
+                for o in I.apply(args[1], [x], node, bounded(x, st)):
                     if o.kind != 'val':
                         return {None}
                     for truth, s3 in I.decide(o.val, o.st):
@@ -2504,13 +2550,16 @@ def builtin_summary(I, cal, args, node, st):
                     for truth, s3 in I.decide(o.val, o.st):
                         if all((not t) for a, t in s3.pc[len(st2.pc):] if a[0] == 'bin' and a[1] == 'Eq' and el in (a[2], a[3])):
                             others.add(truth)
-            s2 = st
-            base = cal.rsplit('::', 1)[0]
-            for x in removed:
-                s2 = s2.event(('call', base + '::remove', (place, x), node))
-            if others != {True}:
-                s2 = s2.event(('call', base + '::clear', (place,), node))
-            return [Out('val', UNIT, s2)]
+            if cands or others == {True}:
+                s2 = st
+                base = cal.rsplit('::', 1)[0]
+                for x in removed:
+                    s2 = s2.event(('call', base + '::remove', (place, x), node))
+                if others != {True}:
+                    s2 = s2.event(('call', base + '::clear', (place,), node))
+                elif not removed:
+                    s2 = s2.event(('kept-all', cal, (place,), node))
+                return [Out('val', UNIT, s2)]
     if cal == 'core::iter::traits::iterator::Iterator::enumerate' and len(args) == 1:
         return [Out('val', ('enumerate', args[0]), st)]
     if cal == 'core::iter::traits::iterator::Iterator::collect' and args:
